@@ -12,7 +12,7 @@ Qed.
 
 (* ---------- traces of a single-replica group (used in examples and refutations) ---------- *)
 
-Definition cfg2 (opt : bool) : config := mkConfig 2 2 opt true true.
+Definition cfg2 (opt : bool) : config := mkConfig 2 2 opt true true true.
 
 Definition rdy (i : N) (tv : bool) : ready := mkReady 1 i i true tv i 1 i i.
 
@@ -25,7 +25,7 @@ Definition ev_ap (i sn : N) : list event := [EvApBefore (i - 1) 1; EvApAfter i; 
 Definition ev_write (i sn : N) (tv cut : bool) : list event := ev_rd i tv cut ++ ev_ap i sn ++ [EvApTriggerAfter i sn].
 (* the same with a snapshot triggered at i: checkpoint taken, goroutine started *)
 Definition ev_write_snap (i sn : N) (tv cut : bool) : list event :=
-  ev_rd i tv cut ++ ev_ap i sn ++ [EvCkSaveBefore; EvCkSaveAfter; EvCkPurgeBefore; EvCkPurgeAfter; EvSnStarted i; EvApTriggerAfter i i].
+  ev_rd i tv cut ++ ev_ap i sn ++ [EvCkFlush; EvCkSaveBefore; EvCkSaveAfter; EvCkPurgeBefore; EvCkPurgeAfter; EvSnStarted i; EvApTriggerAfter i i].
 Definition ev_sn_to_file (i : N) : list event := [EvSnCkDone i; EvSnCreated i; EvSnFile i].
 Definition ev_sn_rest (i : N) : list event := [EvSnMarked i; EvSnSynced i; EvSnReleased i; EvSnUpdated i; EvSnCompacted i].
 
@@ -89,7 +89,7 @@ Proof. vm_compute. reflexivity. Qed.
 
 (* before b025328: processReady published the committed entries before persistRaftState although they were
    committed in the same Ready: the apply loop answers the client, the process dies before the WAL write *)
-Definition cfg_before_b025328 : config := mkConfig 2 2 true false true.
+Definition cfg_before_b025328 : config := mkConfig 2 2 true false true true.
 Definition trace_ack_before_save : list event := [EvRdBegin (rdy 1 true); EvRdPublish 1 1; EvApBefore 0 1; EvApAfter 1].
 
 Lemma ack_before_save_refuted :
@@ -107,7 +107,7 @@ Proof. vm_compute. reflexivity. Qed.
 (* before c523023: two process deaths in a row between "snap file written" and "WAL marker written" (one goroutine
    in the window each time: the schedule hypothesis holds), the snap directory purge at the second restart evicts
    the only snapshot the WAL records; the first WAL segment being purged already, the node cannot restart *)
-Definition cfg_before_c523023 : config := mkConfig 2 2 true true false.
+Definition cfg_before_c523023 : config := mkConfig 2 2 true true false true.
 Definition ev_restart (S L : N) : list event :=
   [EvCrash 0 0; EvRcChosen S; EvRsRemoved S; EvRsCopied S; EvRcRestored S; EvRcReplay (L - S) (if L - S =? 0 then 0 else L) L].
 Definition ev_replay_apply (S L : N) : list event :=
@@ -130,7 +130,7 @@ Proof. eexists. vm_compute. repeat split; reflexivity. Qed.
 
 (* with the orphaned files removed at startup the purge has nothing to evict *)
 Lemma orphans_rejected_now :
-  snd (run_from (cfg2 true) init_state trace_orphans 0) = Some (135, R_GUARD).
+  snd (run_from (cfg2 true) init_state trace_orphans 0) = Some (138, R_GUARD).
 Proof. vm_compute. reflexivity. Qed.
 
 (* I5: the engine content found after a process death is never used: the death leaves it untrusted, the restart
@@ -158,6 +158,29 @@ Proof.
   all: try (right; right; eexists; split; [reflexivity|]; apply N.eqb_eq in Heqb || idtac; congruence).
   - exfalso. destruct apd; destruct ((0 <? r_n r) || r_hs r && r_tv r); destruct (negb (opt_fsync c) || r_hs r && r_tv r);
       cbn in Hs'; congruence.
-  - right. right. exists i. split; [reflexivity|].
-    match goal with G : negb (i =? ?j) = false |- _ => apply negb_false_iff in G; apply N.eqb_eq in G; subst end. congruence.
+  - right; right; eexists; split; [reflexivity|];
+    match goal with G : negb (_ =? _) = false |- _ => apply negb_false_iff in G; apply N.eqb_eq in G; subst end; congruence.
+  - right; right; eexists; split; [reflexivity|];
+    match goal with G : negb (_ =? _) = false |- _ => apply negb_false_iff in G; apply N.eqb_eq in G; subst end; congruence.
 Qed.
+
+(* capture before flush: if RockDB.Backup did not flush the write-back cache (HyperLogLog) before the checkpoint is
+   queued, the checkpoint named i lacks the acknowledged writes that sit only in the cache; the snapshot is recorded,
+   the node dies, restores that checkpoint and replays only the entries above i: the cached writes are gone *)
+Definition cfg_no_flush : config := mkConfig 2 2 true true true false.
+Definition ev_write_snap_noflush (i sn : N) : list event :=
+  ev_rd i false false ++ ev_ap i sn ++ [EvCkSaveBefore; EvCkSaveAfter; EvCkPurgeBefore; EvCkPurgeAfter; EvSnStarted i; EvApTriggerAfter i i].
+Definition trace_capture_before_flush : list event :=
+  ev_write 1 0 true false ++ ev_write 2 0 false false ++ ev_write 3 0 false false ++ ev_write 4 0 false false
+  ++ ev_write_snap_noflush 5 0 ++ ev_sn_to_file 5 ++ ev_sn_rest 5 ++ ev_write 6 5 false false.
+
+Lemma capture_before_flush_refuted :
+  exists s, run cfg_no_flush init_state trace_capture_before_flush = Ok s
+    /\ sched_okb cfg_no_flush init_state trace_capture_before_flush = true
+    /\ acked s = 6 /\ recover_state s 0 0 = Ok [6].
+Proof. eexists. vm_compute. repeat split; reflexivity. Qed.
+
+(* the code as it is flushes first: without the flush event the checkpoint request is not enabled *)
+Lemma capture_before_flush_rejected_now :
+  snd (run_from (cfg2 true) init_state trace_capture_before_flush 0) = Some (54, R_PC).
+Proof. vm_compute. reflexivity. Qed.
